@@ -92,6 +92,10 @@ func (v DenseReal32Vector) SET(w DenseReal32Vector) {
   }
 }
 func (v DenseReal32Vector) SLICE(i, j int) DenseReal32Vector {
+  // Go would allow to re-slice a view up to the capacity of its parent
+  if j > len(v) {
+    panic(fmt.Errorf("slice (%d:%d) out of bounds for vector of dimension %d", i, j, len(v)))
+  }
   return v[i:j]
 }
 func (v DenseReal32Vector) APPEND(w DenseReal32Vector) DenseReal32Vector {
@@ -145,6 +149,10 @@ func (v DenseReal32Vector) ReverseOrder() {
   }
 }
 func (v DenseReal32Vector) Slice(i, j int) Vector {
+  // Go would allow to re-slice a view up to the capacity of its parent
+  if j > len(v) {
+    panic(fmt.Errorf("slice (%d:%d) out of bounds for vector of dimension %d", i, j, len(v)))
+  }
   return v[i:j]
 }
 func (v DenseReal32Vector) Swap(i, j int) {
@@ -214,6 +222,10 @@ func (v DenseReal32Vector) ConstAt(i int) ConstScalar {
   return v[i]
 }
 func (v DenseReal32Vector) ConstSlice(i, j int) ConstVector {
+  // Go would allow to re-slice a view up to the capacity of its parent
+  if j > len(v) {
+    panic(fmt.Errorf("slice (%d:%d) out of bounds for vector of dimension %d", i, j, len(v)))
+  }
   return v[i:j]
 }
 func (v DenseReal32Vector) AsConstMatrix(n, m int) ConstMatrix {
@@ -228,6 +240,10 @@ func (v DenseReal32Vector) MagicAt(i int) MagicScalar {
   return v.AT(i)
 }
 func (v DenseReal32Vector) MagicSlice(i, j int) MagicVector {
+  // Go would allow to re-slice a view up to the capacity of its parent
+  if j > len(v) {
+    panic(fmt.Errorf("slice (%d:%d) out of bounds for vector of dimension %d", i, j, len(v)))
+  }
   return v[i:j]
 }
 func (v DenseReal32Vector) ResetDerivatives() {
